@@ -532,7 +532,7 @@ func scenarioKey(sc *authScenario) string {
 	switch ev.Type {
 	case "member":
 		kind := "other"
-		if ev.TPI != "none" {
+		if ev.TPI != "none" && ev.Membership == "invite" {
 			kind = "tpi"
 		} else if ev.Sender == ev.Target {
 			kind = "self"
@@ -543,6 +543,8 @@ func scenarioKey(sc *authScenario) string {
 		}
 		if kind == "tpi" {
 			s += fmt.Sprintf("/evtpi=%s/sttpi=%s/tpisender=%v", ev.TPI, st.TPI, st.TPISender == ev.Sender)
+		} else if ev.TPI != "none" {
+			s += "/with-tpi-block"
 		}
 		if ev.AuthVia != "none" {
 			s += "/via=" + ev.AuthVia
